@@ -130,7 +130,13 @@ func depWorld(seed uint64, name string) *spec.World {
 	}
 	a := mk("audit.proto", "AuditService", "/audit", []string{"POST", "PUT"})
 	b := mk("feed.proto", "FeedService", "/feed", []string{"POST", "PATCH", "POST"}[:2+int(seed%2)])
-	return &spec.World{Name: name, Files: []*spec.File{types, a, b}, Mock: true, Features: []string{"dependent_files", "same_package"}}
+	// a sibling file of the same package that nothing imports: error-shaped messages in it
+	// belong to its own outputs only
+	errs := &spec.File{Path: name + "/errors.proto", Package: pkg, GoPackage: gp, Messages: []*spec.Message{
+		{Name: "RateLimitError", Fields: []*spec.Field{{Name: "retry_after", Number: 1, Kind: "int32"}, {Name: "reason", Number: 2, Kind: "string"}}},
+		{Name: "QuotaError", Fields: []*spec.Field{{Name: "limit", Number: 1, Kind: "int64"}}},
+	}}
+	return &spec.World{Name: name, Files: []*spec.File{types, a, b, errs}, Mock: true, Features: []string{"dependent_files", "same_package", "unimported_sibling_file"}}
 }
 
 func extraFile() *descriptorpb.FileDescriptorProto {
@@ -334,7 +340,7 @@ func (e *c15Env) checkWorld(w *spec.World, mapSeeds int, seed int64) []*c15Findi
 			tup("clock")
 		}
 		// (d) request shapes
-		if len(paths) == 3 {
+		if len(paths) >= 3 {
 			// dependent files: each service file alone (its dependencies present, not generated)
 			// and the types file alone must reproduce the bytes of the all-together run
 			for i := range paths {
@@ -349,7 +355,11 @@ func (e *c15Env) checkWorld(w *spec.World, mapSeeds int, seed int64) []*c15Findi
 				tup(v.Kind)
 			}
 			v := base
-			v.Kind, v.Generate = "permute-generate", []string{paths[2], paths[1], paths[0]}
+			rev := make([]string, len(paths))
+			for i := range paths {
+				rev[i] = paths[len(paths)-1-i]
+			}
+			v.Kind, v.Generate = "permute-generate", rev
 			if f, d := compareResults(canon, e.run(w, v), false); f != "" {
 				report(v, f, d)
 			}
